@@ -10,6 +10,7 @@ import (
 	"path/filepath"
 	"strings"
 	"sync"
+	"time"
 
 	"golang.org/x/tools/go/ssa"
 )
@@ -140,6 +141,9 @@ type Exec struct {
 	}
 	crcApps []crcApp
 	crcMsg  map[*Term]crcMessage
+	ackApps map[string][]ackApp
+	ackSeen map[*Term]bool
+	ackVars []*Term
 	locks   map[*Cell]*lockState
 	trace   []Access
 	tracing bool
@@ -156,6 +160,11 @@ type Exec struct {
 type crcMessage struct {
 	msg   []*Term
 	zeros int // implicit trailing zero bytes of a lazy buffer
+}
+
+type ackApp struct {
+	args []*Term
+	val  *Term
 }
 
 type crcApp struct {
@@ -200,7 +209,14 @@ func (ex *Exec) checkWith(c *Term, keep bool) string {
 	ex.pool.emit(c, &sb)
 	sb.WriteString("(push 1)\n(assert " + c.ref() + ")\n")
 	ex.s.send(sb.String())
+	t0 := time.Now()
 	r := ex.s.Check()
+	if d := time.Since(t0); d > 2*time.Second {
+		if dir := os.Getenv("GOSMT_SLOWLOG"); dir != "" {
+			os.MkdirAll(dir, 0755)
+			os.WriteFile(filepath.Join(dir, fmt.Sprintf("slow-%d-%s.smt2", time.Now().UnixNano(), r)), []byte(standalone(append(append([]*Term{}, ex.pc...), c))), 0644)
+		}
+	}
 	if r == "sat" && keep {
 		ex.fetchModel()
 	}
@@ -273,7 +289,7 @@ func (ex *Exec) fetchModel() {
 	ex.modelValid = true
 }
 
-func (ex *Exec) extraVars() []*Term { return nil }
+func (ex *Exec) extraVars() []*Term { return ex.ackVars }
 
 // take records a decision and asserts its literal.
 func (ex *Exec) take(c *Term, d Decision) {
